@@ -44,6 +44,7 @@ fn main() {
         "stress" => stress::run(&args, &mut sink),
         "alloc-freelist" => alloc::run_freelist(seed, cases, &mut sink),
         "alloc-probe" => alloc::run_probe(seed, cases, &mut sink),
+        "alloc-lookup" => alloc::run_lookup(seed, cases, &mut sink),
         "core-pp" => core_pp::run(seed, cases, &mut sink),
         "core-mp" => core_mp::run(seed, cases, &mut sink),
         "core-mp-corpus" => {
